@@ -117,6 +117,11 @@ Definition py_int (s : str) : option Z :=
       else omap Z.of_N (parse_digits_us (c :: r) 0 false)
   end.
 
+Lemma decZ_has z x : is_digit x = false -> x <> "-" -> has x (decZ z) = false.
+Proof.
+  intros Hx Hm. destruct z; cbn [decZ]; try now apply dec_has.
+  cbn [has]. rewrite dec_has by exact Hx. destruct (Ascii.eqb_spec "-" x); [subst; contradiction|reflexivity].
+Qed.
 Lemma parse_digits_us_digits s : all_chars is_digit s = true -> forall acc b,
   s <> [] \/ b = true -> parse_digits_us s acc b = parse_digits s acc.
 Proof.
